@@ -27,6 +27,11 @@
 // spellings (idn_test.go). The wire groups B, D and F place auth_map and
 // auth_map_normalize in the endpoint block, in the global configuration scope
 // (read by maddy.ReadGlobals), or in both (scope_test.go).
+//
+// Group G (6_000_000..): rounds of 2-8 logins that run at the same time against
+// one auth.pass_table instance (directly, through SASL exchanges, over parallel
+// connections to a submission endpoint), account management only between the
+// rounds; the sequential reference decides every login (conc_test.go).
 package c14
 
 import (
@@ -100,6 +105,11 @@ func TestVerif(t *testing.T) {
 	nF := r.N(48, 1280) * want("F")
 	for i := 0; i < nF; i++ {
 		r.Run(groupF+i, fmt.Sprintf("idnwire-%d", i), func(c *rep.Case) { runWireIDN(t, r, c, groupF+i) })
+	}
+	// seventh widening: logins that overlap in time (conc_test.go)
+	nG := r.N(concQuick, concThorough) * want("G")
+	for i := 0; i < nG; i++ {
+		r.Run(groupG+i, fmt.Sprintf("conc-%d", i), func(c *rep.Case) { runConc(t, r, c, groupG+i) })
 	}
 }
 
@@ -540,6 +550,12 @@ type env struct {
 var normalizers = []string{"auto", "auto", "auto", "auto", "precis_casefold", "precis_casefold_email", "precis_email", "precis", "casefold", "noop"}
 
 func newEnv(p *prng.R, id string, kind mapKind) (*env, error) {
+	return newEnvTbl(p, id, kind, nil)
+}
+
+// newEnvTbl: wrap (group G, conc_test.go) puts a harness table in front of the
+// in-memory credentials table; same draws as ever.
+func newEnvTbl(p *prng.R, id string, kind mapKind, wrap func(*mx.MemTable) module.Module) (*env, error) {
 	e := &env{id: id, model: &model{accts: map[string]*acct{}}}
 	// 3 atoms, all forms: a small universe so that names collide often.
 	perm := p.Perm(len(atoms))
@@ -549,7 +565,11 @@ func newEnv(p *prng.R, id string, kind mapKind) (*env, error) {
 		}
 	}
 	e.mem = mx.NewTable("c14tbl_" + id)
-	mx.RegisterInstance(e.mem)
+	if wrap != nil {
+		mx.RegisterInstance(wrap(e.mem))
+	} else {
+		mx.RegisterInstance(e.mem)
+	}
 	mod, err := pass_table.New("auth.pass_table", "c14pt_"+id, nil, nil)
 	if err != nil {
 		return nil, err
